@@ -39,6 +39,56 @@ func (ff *FuncFacts) AtRefined(b *ssa.BasicBlock) FactSet {
 	for round := 0; round < 3; round++ {
 		added := false
 		for _, f := range append(FactSet{}, out...) {
+			// boolean phi of a short-circuit expression used as a value
+			// (switch { case a && b: … }): B(phi) rules out the edges that carry
+			// the constant false (¬B(phi): the constant true).
+			if f.Op == "B" {
+				ph := ff.phiByTerm(f.A)
+				if ph == nil || !ff.Dominates(ph.Block(), b) {
+					continue
+				}
+				var common FactSet
+				first := true
+				for i, e := range ph.Edges {
+					pred := ph.Block().Preds[i]
+					if !ff.Reachable(pred) {
+						continue
+					}
+					if c, ok := e.(*ssa.Const); ok && c.Value != nil {
+						isTrue := c.Value.ExactString() == "true"
+						if isTrue != f.Pos {
+							continue // this edge yields the opposite truth value
+						}
+					}
+					ef := ff.EdgeFacts(pred, ph.Block())
+					if _, isConst := e.(*ssa.Const); !isConst {
+						cf := ff.T.Cond(e)
+						if !f.Pos {
+							cf = cf.Neg()
+						}
+						ef = append(ef, cf)
+					}
+					if first {
+						common, first = ef, false
+					} else {
+						var inter FactSet
+						for _, g := range common {
+							if ef.Has(g) {
+								inter = append(inter, g)
+							}
+						}
+						common = inter
+					}
+				}
+				for _, g := range common {
+					if !seen[g] {
+						seen[g] = true
+						out = append(out, g)
+						added = true
+					}
+				}
+				continue
+			}
 			if f.Op != "EQ" || (f.A != "nil" && f.B != "nil") {
 				continue
 			}
